@@ -11,6 +11,7 @@
 import FluteModel.Lemmas.Toi
 import FluteModel.Lemmas.ToiSys
 import FluteModel.Lemmas.ToiWire
+import FluteModel.Lemmas.ToiLct
 import Std.Data.String.ToNat
 namespace Flute.Props.C15
 open Flute Flute.Toi
@@ -52,11 +53,11 @@ theorem allocate_fresh (w : Width) (cfg : Option Nat) (rnd : Nat) (ops : List Op
 
 /-- the same for the TOI allocated implicitly by `add_object` (object without TOI) -/
 theorem add_object_fresh (w : Width) (cfg : Option Nat) (rnd : Nat) (ops : List Op) (s : Sys) (evs : List Ev)
-    (hr : Reaches w cfg rnd ops s evs) (k v : Nat) (b : Bool) (s' : Sys) (evs' : List Ev)
-    (hs : s.step (.add k b) = .ok (s', .toi v, evs')) :
+    (hr : Reaches w cfg rnd ops s evs) (k v : Nat) (b car : Bool) (s' : Sys) (evs' : List Ev)
+    (hs : s.step (.add k b car) = .ok (s', .toi v, evs')) :
     v ≠ 0 ∧ v < 2 ^ w.bits ∧ v ∉ s.live := by
   obtain ⟨hi, hw, _, _⟩ := reaches_good hr
-  obtain ⟨_, _, hf, _, hrange⟩ := (step_good hi (.add k b)).ok _ _ _ hs
+  obtain ⟨_, _, hf, _, hrange⟩ := (step_good hi (.add k b car)).ok _ _ _ hs
   rw [add_events hs] at hf hrange
   simp only [EvsFresh] at hf
   have := hrange v (by simp)
@@ -97,8 +98,8 @@ theorem reuse_only_after_release (w : Width) (cfg : Option Nat) (rnd : Nat) (ops
     whenever at least one non-zero value of the width stays free after this allocation, i.e.
     `|live| < 2^w - 2`. -/
 theorem allocate_terminates (w : Width) (cfg : Option Nat) (rnd : Nat) (ops : List Op) (s : Sys) (evs : List Ev)
-    (hr : Reaches w cfg rnd ops s evs) (hfree : s.live.length + 2 < 2 ^ w.bits) (h k : Nat) (b : Bool) :
-    s.step (.alloc h) ≠ .hang ∧ s.step (.add k b) ≠ .hang := by
+    (hr : Reaches w cfg rnd ops s evs) (hfree : s.live.length + 2 < 2 ^ w.bits) (h k : Nat) (b car : Bool) :
+    s.step (.alloc h) ≠ .hang ∧ s.step (.add k b car) ≠ .hang := by
   obtain ⟨hi, hw, _, _⟩ := reaches_good hr
   have hlen : s.alloc.reserved.length + 2 < s.alloc.w.modulus := by
     rw [← hi.perm.length_eq, hw]; exact hfree
@@ -132,6 +133,45 @@ theorem allocate_hangs_on_last_free (w : Width) (cfg : Option Nat) (rnd : Nat) (
     rw [← hi.perm.length_eq, hw]; exact hfull
   simp only [Sys.step, hname, allocate_hangs hi.alloc hlen]
 
+/-- **allocate_ok_iff** - the three theorems above in one: after any history `allocate_toi` returns a
+    TOI **iff** at least one non-zero value of the width stays free after this allocation
+    (`h` = a fresh name for the new handle, harness bookkeeping). -/
+theorem allocate_ok_iff (w : Width) (cfg : Option Nat) (rnd : Nat) (ops : List Op) (s : Sys) (evs : List Ev)
+    (hr : Reaches w cfg rnd ops s evs) (h : Nat) (hname : s.handles.find? h = none) :
+    (∃ v s' e, s.step (.alloc h) = .ok (s', .toi v, e)) ↔ s.live.length + 2 < 2 ^ w.bits := by
+  obtain ⟨hi, hw, _, _⟩ := reaches_good hr
+  have a := hi.alloc
+  have hle : s.live.length + 2 ≤ 2 ^ w.bits := by
+    have := nodup_length_le s.alloc.w.modulus (s.alloc.next :: s.alloc.reserved)
+      (List.nodup_cons.2 ⟨a.next_free, a.nodup⟩) (by
+        intro x hx
+        simp only [List.mem_cons] at hx
+        rcases hx with rfl | hx
+        · have := a.next_ne; have := a.next_lt; omega
+        · have := a.res_lt x hx
+          have : x ≠ 0 := fun e => a.zero_free (e ▸ hx)
+          omega)
+    have hm := s.alloc.w.modulus_ge
+    rw [hi.perm.length_eq]
+    simp only [List.length_cons] at this
+    rw [hw] at this hm
+    show s.alloc.reserved.length + 2 ≤ w.modulus
+    omega
+  constructor
+  · intro ⟨v, s', e, hs⟩
+    refine Classical.byContradiction fun hn => ?_
+    have hfull : s.live.length + 2 = 2 ^ w.bits := by omega
+    rw [allocate_hangs_on_last_free w cfg rnd ops s evs hr hfull h hname] at hs
+    cases hs
+  · intro hfree
+    have hlen : s.alloc.reserved.length + 2 < s.alloc.w.modulus := by
+      rw [← hi.perm.length_eq, hw]; exact hfree
+    obtain ⟨v, a', ha⟩ := allocate_returns hi.alloc hlen
+    have hs : s.step (.alloc h) =
+        .ok ({ s with alloc := a', handles := (h, v) :: s.handles }, .toi v, [.allocated v]) := by
+      simp only [Sys.step, hname, ha]
+    exact ⟨v, _, _, hs⟩
+
 /-! ### wire -/
 
 /-- **wire_exact** (header level) - for every TOI below 2^112 and every TSI (the H flag is shared
@@ -156,6 +196,38 @@ theorem wire_exact_allocated (w : Width) (cfg : Option Nat) (rnd : Nat) (ops : L
     ToiWire.decode (ToiWire.encode v tsi) = v :=
   (wire_exact v tsi (Nat.lt_of_lt_of_le (allocated_in_range w cfg rnd ops s evs hr v hv).2
     w.modulus_le)).1
+
+/-- **Link to the C06 model** (`FluteModel/Lct.lean`, the whole `push_lct_header` / `parse_lct_header`):
+    for every PSI, CCI, codepoint, close flags, TSI < 2^48 and TOI < 2^112, in the header the C06 model
+    builds (a) byte 1 carries the O and H flags of the C15 field model, (b) the header ends with the
+    C15 model's field bytes, and (c) the C06 parser, whatever follows the header, returns that TOI,
+    which is also what the C15 `decode` returns, and the field sits right before `header_ext_offset`.
+    So `ToiWire.encode/decode` is the TOI part of `Lct.pushLctHeader/parseLctHeader`, not a second opinion. -/
+theorem toiwire_is_lct_toi_field (psi cci tsi toi cp : Nat) (co cs : Bool) (rest : List Nat)
+    (hpsi : psi < 4) (hcp : cp < 256) (hcci : cci < 2 ^ 128) (htsi : tsi < 2 ^ 48) (htoi : toi < 2 ^ 112) :
+    let hdr := Lct.pushLctHeader psi cci tsi toi cp co cs
+    let f := ToiWire.encode toi tsi
+    (∃ b, hdr[1]? = some b ∧ b / 32 % 4 = f.o ∧ b / 16 % 2 = f.h) ∧
+    hdr.drop (hdr.length - f.bytes.length) = f.bytes ∧
+    (∃ p, Lct.parseLctHeader (hdr ++ rest) = .ok p ∧ p.toi = toi ∧ p.toi = ToiWire.decode f ∧
+        p.headerExtOffset = hdr.length ∧
+        hdr.drop (p.headerExtOffset - (4 * f.o + 2 * f.h)) = f.bytes) :=
+  ToiWire.encode_is_lct_toi_field psi cci tsi toi cp co cs rest hpsi hcp hcci htsi htoi
+
+/-- **wire_exact, composed with the C06 header model**: every TOI that is live after any history, for
+    any width and start value, put into a packet header by the C06 model of `push_lct_header` (any PSI,
+    CCI, codepoint, flags, TSI < 2^48, followed by anything), is returned by the C06 model of
+    `parse_lct_header`. -/
+theorem wire_exact_lct (w : Width) (cfg : Option Nat) (rnd : Nat) (ops : List Op) (s : Sys) (evs : List Ev)
+    (hr : Reaches w cfg rnd ops s evs) (v : Nat) (hv : v ∈ s.live)
+    (psi cci tsi cp : Nat) (co cs : Bool) (rest : List Nat)
+    (hpsi : psi < 4) (hcp : cp < 256) (hcci : cci < 2 ^ 128) (htsi : tsi < 2 ^ 48) :
+    ∃ p, Lct.parseLctHeader (Lct.pushLctHeader psi cci tsi v cp co cs ++ rest) = .ok p ∧ p.toi = v := by
+  have hv112 : v < 2 ^ 112 :=
+    Nat.lt_of_lt_of_le ((live_unique w cfg rnd ops s evs hr).2.2 v hv) w.modulus_le
+  obtain ⟨_, _, p, hp, ht, _⟩ :=
+    ToiWire.encode_is_lct_toi_field psi cci tsi v cp co cs rest hpsi hcp hcci htsi hv112
+  exact ⟨p, hp, ht⟩
 
 /-- The bound 2^112 of `wire_exact` is sharp: a 113-bit TOI is truncated (`nb_bytes_128 = 16`,
     `O = (16 >> 2) & 3 = 0`), which is why the allocator has to mask to 112 bits. -/
@@ -198,6 +270,24 @@ theorem d5_masked (v : Nat) (w : Width) : toMaxLength v w < 2 ^ w.bits ∧ toMax
   have h2 : v % w.modulus < w.modulus := Nat.mod_lt _ (by omega)
   exact ⟨h2, Nat.lt_of_lt_of_le h2 w.modulus_le⟩
 
+/-! ### finding toi-1 (repaired): a handle of another sender -/
+
+/-- Before the repair `add_object` accepted an object carrying a `Toi` of ANOTHER sender without
+    looking at it (`Sys.addForeignUnchecked`: the object is live, this allocator knows nothing).
+    Witness, default configuration of both senders (start 1): the next `add_object` without TOI returns
+    the same TOI 1 - two live objects share a TOI, uniqueness is false.  (Replayed on the real
+    pre-repair code: dev profile `debug_assert!` fdt.rs, release profile two objects with TOI 1.) -/
+theorem foreign_unchecked_breaks_uniqueness :
+    ∃ s' evs, ((Sys.init .w112 (initValue (some 1) 0)).addForeignUnchecked 7 1).step (.add 8 true false)
+        = .ok (s', .toi 1, evs) ∧ s'.live = [1, 1] ∧ ¬ s'.live.Nodup :=
+  ⟨_, _, rfl, rfl, by decide⟩
+
+/-- Since the repair such an `add_object` is refused before anything is allocated (`Op.addEarlyErr`,
+    also: unknown priority queue, FDT complete): the state is unchanged, in particular no TOI is
+    consumed - and every theorem above quantifies over histories that contain such calls. -/
+theorem add_refused_early_changes_nothing (s : Sys) (k : Nat) :
+    s.step (.addEarlyErr k) = .ok (s, .err, []) := rfl
+
 /-! ### D19: the excluded case is reachable -/
 
 /-- For every width there is a history (2^w − 2 calls of `allocate_toi`, all handles kept) after
@@ -220,10 +310,16 @@ theorem exhaustion_reachable (w : Width) :
 /-- 16 bit, start at max−1: wrap-around skips 0; a removed object keeps its TOI until its transfer
     is over; a dropped handle's TOI is the only one that may come back -/
 example : ∃ s evs, Reaches .w16 (some 65534) 0
-      [.alloc 1, .alloc 2, .alloc 3, .add 7 true, .drop 2, .start 7, .remove 7, .add 8 false, .drain] s evs ∧
+      [.alloc 1, .alloc 2, .alloc 3, .add 7 true false, .drop 2, .start 7, .remove 7, .add 8 false false, .drain] s evs ∧
     evs = [.allocated 65534, .allocated 65535, .allocated 1, .allocated 2, .released 65535,
            .allocated 3, .released 3, .released 2] ∧
     s.live = [1, 65534] ∧ s.alloc.next = 4 :=
+  ⟨_, _, rfl, rfl, rfl, rfl⟩
+
+/-- a carousel object survives its transfers: its TOI stays live (and is skipped) until it is removed -/
+example : ∃ s evs, Reaches .w16 (some 65535) 0
+      [.add 1 true true, .start 1, .drain, .alloc 2, .start 1, .drain, .addEarlyErr 9, .remove 1] s evs ∧
+    evs = [.allocated 65535, .allocated 1, .released 65535] ∧ s.live = [1] ∧ s.alloc.next = 2 :=
   ⟨_, _, rfl, rfl, rfl, rfl⟩
 
 /-- start value 0 → 1; a start value above the width is masked (2^16 + 7 → 7); the random default
